@@ -5,23 +5,45 @@ Open Scope Z_scope.
 
 Definition dec_ev (x : sx) : option mev :=
   match x with
-  | SL [SZ 0; SZ a] =>
-      if a =? 0 then Some (EAttempt ARefused) else if a =? 1 then Some (EAttempt AFailTransient)
-      else if a =? 2 then Some (EAttempt AFailPermanent) else if a =? 3 then Some (EAttempt (AOk false))
-      else if a =? 4 then Some (EAttempt (AOk true)) else None
+  | SL [SZ 0; SZ a; SZ fl] =>
+      let b := negb (fl =? 0) in
+      if a =? 0 then Some (EAttempt ARefused) else if a =? 1 then Some (EAttempt (AFail false b))
+      else if a =? 2 then Some (EAttempt (AFail true b)) else if a =? 3 then Some (EAttempt (AOk b))
+      else if a =? 5 then Some (EAttempt (AHookFail b)) else None
   | SL [SZ 1; SZ t] =>
       if t =? 0 then Some (ETerm TDrop) else if t =? 1 then Some (ETerm TClose)
       else if t =? 2 then Some (ETerm TStop) else if t =? 3 then Some (ETerm TStreamError) else None
+  | SL [SZ 2] => Some EStaleReader
+  | SL [SZ 3] => Some EOldReceiver
   | _ => None
   end.
 
 Definition phase_z (p : mphase) : Z :=
   match p with MIdle => 0 | MUp => 1 | MRetry => 2 | MDead => 3 | MReturned => 4 end.
 
-(* observation: phase, sessions, resumed sessions, PostConnect calls, sessions whose
-   receiver works (a probe stanza sent on each established session reaches a handler) *)
-Definition run_typed (es : list mev) : sx :=
-  let s := m_run m_init es in
-  SL [SZ (phase_z (m_phase s)); Snat (m_sessions s); Snat (m_resumed s); Snat (m_post s); Snat (m_recv s)].
+Inductive c13_input :=
+| IScenario (sm : bool) (es : list mev)   (* a fault sequence under a StreamManager *)
+| IHeaderWrite.                           (* how a stream header that cannot be written is classified *)
 
-Definition run_C13 : sx -> sx := with_input (as_list dec_ev) run_typed.
+Definition dec_input (x : sx) : option c13_input :=
+  match x with
+  | SL [SZ 0; sm; es] => do b <- as_b sm; do l <- as_list dec_ev es; Some (IScenario b l)
+  | SL [SZ 1] => Some IHeaderWrite
+  | _ => None
+  end.
+
+(* observation of a scenario: whether Run has returned, negotiations completed on the
+   server, sessions resumed, PostConnect calls, sessions that work in both directions (a
+   probe stanza sent by the server on the session's connection reaches a handler and a
+   stanza sent by the application arrives on that connection), connections the server
+   accepted *)
+Definition run_typed (i : c13_input) : sx :=
+  match i with
+  | IScenario sm es =>
+      let s := m_run repaired (m_init sm) es in
+      SL [SZ (phase_z (m_phase s)); Snat (m_estab s); Snat (m_resumed s); Snat (m_post s);
+          Snat (m_recv s); Snat (m_conns s)]
+  | IHeaderWrite => SL [SZ 9; SB (attempt_permanent header_write_failure)]
+  end.
+
+Definition run_C13 : sx -> sx := with_input dec_input run_typed.
